@@ -94,10 +94,13 @@ impl Money {
 /// total; post total = pre total + change; registered <=> no ACB, no gain;
 /// nothing negative).
 fn check_frame(s: &SymState, ai: u8, d: &TxDelta, new_bal: Decimal, bal_delta: Decimal) {
-    assert!(*d.pre_status.share_balance == dec(s.bal_of(ai), 0));
-    assert!(*d.pre_status.all_affiliate_share_balance == dec(s.total, 0));
+    check_frame_sc(s, ai, d, new_bal, bal_delta, 0)
+}
+fn check_frame_sc(s: &SymState, ai: u8, d: &TxDelta, new_bal: Decimal, bal_delta: Decimal, bsc: u32) {
+    assert!(*d.pre_status.share_balance == dec(s.bal_of(ai), bsc));
+    assert!(*d.pre_status.all_affiliate_share_balance == dec(s.total, bsc));
     assert!(*d.post_status.share_balance == new_bal);
-    assert!(*d.post_status.all_affiliate_share_balance == dec(s.total, 0) + bal_delta);
+    assert!(*d.post_status.all_affiliate_share_balance == dec(s.total, bsc) + bal_delta);
     assert!(d.post_status.total_acb.is_none() == (ai == 2));
     assert!(d.pre_status.total_acb.is_none() == (ai == 2));
     if ai == 2 {
@@ -279,7 +282,8 @@ macro_rules! step_split {
             #[kani::stub(get_delta_superficial_loss_info, cut_sfl_unreachable)]
             fn $name() {
                 let ai: u8 = $ai;
-                let s = sym_state(BAL_MAX, 0, ACB_MAX, 2, $mask);
+                // balances in tenths of a share: other affiliates may hold fractions
+                let s = sym_state(BAL_MAX, 1, ACB_MAX, 2, $mask);
                 let post = any_in(1, 9);
                 let pre = any_in(1, 9);
                 let int_only = ks::any_bool();
@@ -288,14 +292,14 @@ macro_rules! step_split {
                 let r = delta_for_tx(0, &txs, &s.st);
                 // factor = post / pre as the ledger computed it
                 let f = logged_div(0, dec(post, 0), dec(pre, 0));
-                let new_bal = dec(bal, 0) * f;
+                let new_bal = dec(bal, 1) * f;
                 match r {
                     Ok((d, inject)) => {
                         vcover!("split accepted");
                         assert!(inject.is_none());
                         assert!(d.capital_gain.is_none());
                         assert!(d.sfl.is_none());
-                        check_frame(&s, ai, &d, new_bal, new_bal - dec(bal, 0));
+                        check_frame_sc(&s, ai, &d, new_bal, new_bal - dec(bal, 1), 1);
                         if ai != 2 {
                             // a split never changes total cost
                             assert!(*d.post_status.total_acb.unwrap() == dec(s.acb_of(ai), 2));
